@@ -1119,7 +1119,17 @@ func (t *TagExpr) getValue(fieldSelector string, subFields []interface{}) (v int
 				}
 				vv = vv.Field(idx)
 			} else if str, ok := k.(string); ok {
-				vv = vv.FieldByName(str)
+				// (a member promoted through an embedded pointer that is nil is absent, like a
+				// member that does not exist; FieldByName panics on that path)
+				if sf, ok := vv.Type().FieldByName(str); ok {
+					if fv, err := vv.FieldByIndexErr(sf.Index); err == nil {
+						vv = fv
+					} else {
+						vv = reflect.Value{}
+					}
+				} else {
+					vv = reflect.Value{}
+				}
 			} else {
 				return nil
 			}
